@@ -192,9 +192,9 @@ def acc_cases(rng, tier):
     # the persisting-shortage scenario of the no-spin theorem: n pending, n+1 dispatches with EMFILE
     for n in (1, 2, 5):
         cases.append(vlib.Case("starve%d" % n, "acc", ["CONN"] * n + ["ACC emfile"] * (n + 1) + ["CONN", "ACC ok"], "acc-starve"))
-    # REVIEW_C item 6: the same histories with a logger sink that changes errno on every line it is given (a
-    # failing system call): a test of errno placed AFTER a log statement would then go wrong.  Each is compared
-    # with the run under an errno-preserving sink (its twin above / below).
+    # REVIEW_C item 6 / finding F-27 (fixed in /repo; regression witness): the same histories with a logger sink that changes
+    # errno on every line it is given (a failing system call): a test of errno placed AFTER a log statement would then go
+    # wrong.  Each is compared with the run under an errno-preserving sink (its twin above / below).
     clob = []
     base = [c for c in cases if any(o.startswith("ACC") and not o.endswith("fatal") for o in c.ops) and not any(o.endswith("fatal") for o in c.ops)]
     pick = [c for c in base if c.tag == "acc-starve"] + [c for c in base if c.tag != "acc-starve" and "ACC emfile" in c.ops[:-2]][:40 if tier == "quick" else 400]
@@ -246,6 +246,8 @@ def run(chk, replay=None):
                     orc_bad.append((c, i, "loop under interrupted polls (%s): %s" % (tag, msg)))
                 nloop_intr += sum(1 for op in c.ops if op[0] in "IE")
                 sigs.add(("loop", tag, tuple(c.ops)))
+                if c.cid in ("lp3", "lk2") and tag == "poll":
+                    chk.sample({"case": c.text().split("\n")[:-1], "back_end": tag, "implementation": li[1:-1]}, limit=8)
             elif c.tag == "acc-clobber":
                 twin_ok = not acc_oracle(c, io.get(c.cid[:-5]) or [])
                 for (i, msg) in acc_oracle(c, li):
@@ -289,7 +291,7 @@ def run(chk, replay=None):
         if nf:
             nfault += 1
             sigs.add(("conn", tuple(op.split()[0] + ":" + ",".join(x for x in op.split()[1:] if x in connlib.TRANSIENT) for op in c.ops)))
-        if len(chk.cov["samples"]) < 3 and nf >= 2 and len(c.ops) <= 14:
+        if len(chk.cov["samples"]) < 5 and nf >= 2 and len(c.ops) <= 14:
             chk.sample({"case": c.text().split("\n")[:-1], "calmed_twin": t.ops, "final": li[len(c.ops)] if len(li) > len(c.ops) else ""})
     # REVIEW_C item 6, connection side: scenarios with a failed direct write that is logged (EINTR / another errno),
     # run again with a logger sink that leaves EPIPE in errno: the implementation's lines must not change
@@ -345,6 +347,7 @@ def run(chk, replay=None):
                 "EventLoop::loop's while loop and of doPendingFunctors, the EMFILE branch of Acceptor::handleRead, all from the clang AST; errno values from Python's errno module",
                 "harness/C11_driver.cc (loopback listener, --wrap=accept4/epoll_wait/poll, fatal classes in a forked child; loop mode: every epoll_wait / poll of the loop thread follows the script, "
                 "real calls with timeout 0, foreign activity on a joined helper thread), harness/Conn_driver.cc",
+                "lib/errno_order.py (which locals are single-assignment copies of errno; where the tested value is captured; which log statements lie on the path to that point)",
                 "kernel: a failed epoll_wait / poll reports nothing and consumes nothing (level-triggered readiness is reported again by the next successful call) - exercised, not proved",
                 "extraction: ExtrOcamlBasic only")
     if orc_bad:
